@@ -310,8 +310,12 @@ class _Gen:
         if not mandatory and self.f["empty_enum"] and self.boolean(0.06):
             n = 0
         used_names, used_ords, values = set(), set(), []
-        for _ in range(n):
-            vn = _uniq_name(self.draw, MEMBER_WORDS, used_names, "member")
+        for k_ in range(n):
+            if k_ == 0 and not mandatory and self.boolean(0.12):
+                vn = "None"         # the one value name that cannot be its own Python member name
+                used_names.add(vn)
+            else:
+                vn = _uniq_name(self.draw, MEMBER_WORDS, used_names, "member")
             o = self.draw(st.one_of(
                 st.sampled_from([0, 1, 2, 3, 4, 5, 252, 253, 254, 255]),
                 st.integers(0, min(lim - 1, 64008)), st.integers(0, 12)))
